@@ -90,7 +90,7 @@ ASSUMPTIONS = [
 ]
 RULE = (
     "one case = one protocol line (helper, tolerances/flags, expected tree, computed tree). V: scalars/arrays of shape 0-3d "
-    "(equal or mismatched), dtypes float/int/bool/complex(/str), computed = reference + per-element perturbation drawn from "
+    "(equal or mismatched), dtypes float/int/bool/complex(/str) (plus an oracle-only stream of float32 / float16 / int32 / int16 / int8 / uint8 arrays with one element 2^-9 or 2^-5 (resp. 1) off against atol = 1e-2, directly and as leaves of dicts / lists), computed = reference + per-element perturbation drawn from "
     "{same, exactly at, one ulp below, one ulp above, (1-+2^-30)x, half, double, far, NaN, inf, sign-flipped variants} of "
     "atol+rtol*|e|, atol in 1e-12..1e-1 (decimal and dyadic), rtol in {1e-16, 1e-8..1e-2, dyadic}, flags equal_nan/equal_phase/passnone; "
     "E: exact comparison over int/bool/str/float/complex with one-element changes, sign flips, kind and shape mismatches; "
@@ -2570,6 +2570,71 @@ def known_predicate(finding, entry) -> bool:
 # ======================================================================================
 
 
+# --------------------------------------------------------------------------------------
+# narrow numeric dtypes (oracle only: the Lean model's arrays are float64 / int64 / complex128 / bool / str)
+
+
+def _narrow_case(case):
+    dt = np.dtype(case["dtype"])
+    exp = np.array(case["expected"], dtype=dt).reshape(tuple(case["shape"]))
+    cpt = np.array(case["computed"], dtype=np.dtype(case["cdtype"])).reshape(tuple(case["shape"]))
+    return exp, cpt
+
+
+def narrow_check(out: Outcome, case):
+    """One expected/computed pair of a narrow dtype (float32 / float16 / int32 / int16 / uint8 ...): every value is exactly
+    representable, the one perturbed element is off by 2^-9 (inside atol = 1e-2 by a factor 5) or by 2^-5 (outside by a
+    factor 3), so the verdict the property demands does not depend on rounding."""
+    import qcelemental as qcel
+
+    exp, cpt = _narrow_case(case)
+    want = "T" if case["inside"] else "F"
+    atol = 1.0e-2
+    calls = [("compare_values", lambda: impl_call(qcel.testing.compare_values, exp, cpt, atol=atol, quiet=True))]
+    wrap = case["wrap"]
+    if wrap == "dict":
+        e, c = {"a": exp, "b": 1}, {"a": cpt, "b": 1}
+    elif wrap == "nested":
+        e, c = {"x": {"y": [exp, "s"]}, "n": 2}, {"x": {"y": [cpt, "s"]}, "n": 2}
+    else:
+        e, c = [exp, 3], [cpt, 3]
+    calls.append(("compare_recursive", lambda: impl_call(qcel.testing.compare_recursive, e, c, atol=atol, quiet=True)))
+    for name, f in calls:
+        got = canon(f())
+        out.evaluations += 1
+        out.count(f"narrow:{case['dtype']}->{case['cdtype']}:{'inside' if case['inside'] else 'outside'}")
+        out.nontrivial("narrow" + repr(sorted(case.items())) + name)
+        if got != want:
+            out.violations.append(Finding("oracle:narrow_dtype_verdict", {"narrow": case, "call": name}, observed=got, expected=want,
+                                          detail=f"{name} on a {case['dtype']} expected array (computed {case['cdtype']}): the one differing element is off by "
+                                                 f"{'2^-9 < atol' if case['inside'] else '2^-5 > atol'} = 1e-2, verdict must be {want}"))
+
+
+def stream_narrow(ctx, out: Outcome):
+    rng = ctx.rng
+    for _ in range(ctx.scale(400, 4000)):
+        dtype = rng.choice(["float32", "float16", "float32", "float16", "int32", "int16", "uint8", "int8"])
+        shape = rng.choice([[3], [2, 2], [1], [2, 3], [4]])
+        n = int(np.prod(shape))
+        isf = dtype.startswith("float")
+        vals = [rng.randint(-7, 7) / 8.0 for _ in range(n)] if isf else [rng.randint(0, 100) for _ in range(n)]
+        inside = rng.random() < 0.5
+        comp = list(vals)
+        k = rng.randrange(n)
+        if isf:
+            cdtype = rng.choice([dtype, "float64"])
+            comp[k] = vals[k] + rng.choice([-1, 1]) * (2.0**-9 if inside else 2.0**-5)
+        else:
+            # integer expected arrays fall under the exact rule; an integer-vs-float pair that differs within the tolerance is a
+            # case the statement leaves open (see ASSUMPTIONS), so the computed side stays an integer array here
+            cdtype = rng.choice([dtype, "int64"])
+            if not inside:
+                comp[k] = comp[k] + 1
+        narrow_check(out, {"dtype": dtype, "cdtype": cdtype, "shape": shape, "expected": vals, "computed": comp, "inside": inside,
+                           "wrap": rng.choice(["dict", "nested", "list"])})
+
+
+
 def run(ctx: Ctx) -> Outcome:
     out = Outcome()
     cases = []
@@ -2585,6 +2650,7 @@ def run(ctx: Ctx) -> Outcome:
     stream_molrecs(ctx, out, cases)
     stream_proto(ctx, out, cases)
     stream_molrecs_raw(ctx, out, cases)
+    stream_narrow(ctx, out)
     model = [None] * len(cases)
     if ctx.model_available:
         model = ctx.run_model(DRIVER, [l for _, l, _ in cases])
@@ -2598,6 +2664,9 @@ def run(ctx: Ctx) -> Outcome:
 
 def replay(ctx: Ctx, case) -> Outcome:
     out = Outcome()
+    if isinstance(case, dict) and "narrow" in case:
+        narrow_check(out, case["narrow"])
+        return out
     line = case["line"] if isinstance(case, dict) else case
     ml = ctx.run_model(DRIVER, [line])[0] if ctx.model_available else None
     via = None
